@@ -2,12 +2,29 @@
 (* C12 (a): schema-aware type confusions.  Every node of a complete base document          *)
 (* (numbered 1..NPos by the harness in document order) is replaced by every YAML node      *)
 (* kind, singly, and in pairs for the kinds in PairKinds.                                  *)
-EXTENDS Naturals, Sequences, TLC, Json
+EXTENDS Naturals, Sequences, TLC, Json, ConfusionPositions
 CONSTANTS NPos, Kinds, PairKinds
 VARIABLE subs
+
+(* What the harness's base document holds at each numbered position: "map", "seq" or "scalar"; written by the harness *)
+(* next to this module (ConfusionPositions.tla) because it is derived from the same document the positions number.      *)
+Expected == ExpectedKinds
+
+(* node class of each replacement kind *)
+KindClass(k) ==
+  CASE k \in {"emptyseq", "seq", "nested"} -> "seq"
+    [] k \in {"emptymap", "map", "tagset", "mergekey"} -> "map"
+    [] k = "null" -> "null"
+    [] k = "alias" -> "scalar"                \* the anchor *anc holds the scalar x
+    [] OTHER -> "scalar"
+(* C11, wrong YAML node kinds: a collection where a scalar is expected, a scalar where a collection is expected, or the    *)
+(* other collection, cannot be a configuration; null and scalar-for-scalar replacements are left to the YAML library's     *)
+(* coercions (Unconstrained)                                                                                                *)
+Incompatible(e, c) == c # "null" /\ e # "any" /\ e # c
+MustReject(ss) == \E i \in 1..Len(ss) : Incompatible(Expected[ss[i].p], KindClass(ss[i].k))
 Sub(p, k) == [p |-> p, k |-> k]
 Init == \/ \E p \in 1..NPos, k \in Kinds : subs = <<Sub(p, k)>>
         \/ \E p1 \in 1..NPos, p2 \in 1..NPos, k1 \in PairKinds, k2 \in PairKinds : p1 < p2 /\ subs = <<Sub(p1, k1), Sub(p2, k2)>>
 Next == FALSE /\ UNCHANGED subs
-Emit == PrintT(<<"ST", ToJson([subs |-> subs])>>)
+Emit == PrintT(<<"ST", ToJson([subs |-> subs, reject |-> MustReject(subs)])>>)
 =============================================================================
